@@ -28,3 +28,7 @@ pub use crate::util::heap::gc_trigger::{FixedHeapSizeTrigger, MemBalancerTrigger
 /// `util::metadata::side_metadata::ranges` (crate-visible module, public items).
 pub use crate::util::metadata::side_metadata::ranges::{break_bit_range, BitByteRange};
 pub use crate::util::metadata::side_metadata::verif_hooks_global as side_global;
+
+/// `util::heap::layout` (crate-visible module): the `Mmapper` trait, so that a harness can stand in for the
+/// process-wide mmapper singleton.
+pub use crate::util::heap::layout::Mmapper;
